@@ -13,6 +13,7 @@ mod refchess;
 mod report;
 mod roots;
 mod searchref;
+mod watch;
 
 use props::posprops::{self, Which};
 
@@ -63,6 +64,16 @@ fn main() {
             0
         }
         "c05-one" => props::c05::replay_one(&arg(&args, "--fen").unwrap(), arg(&args, "--depth").unwrap().parse().unwrap(), arg(&args, "--mode").as_deref() == Some("fixed")),
+        "c06" => {
+            props::c0607::run("C06", &tier, seed, &out);
+            0
+        }
+        "c07" => {
+            props::c0607::run("C07", &tier, seed, &out);
+            0
+        }
+        "c06-one" => props::c0607::replay_one("C06", &arg(&args, "--fen").unwrap(), arg(&args, "--depth").unwrap().parse().unwrap(), &arg(&args, "--at").unwrap()),
+        "c07-one" => props::c0607::replay_one("C07", &arg(&args, "--fen").unwrap(), arg(&args, "--depth").unwrap().parse().unwrap(), &arg(&args, "--at").unwrap()),
         "c10" => {
             props::c10::run(&tier, seed, &out);
             0
